@@ -19,6 +19,8 @@ type Ann struct {
 	S     int       `json:"s"`
 	ID    gen.ID128 `json:"id"`
 	Close bool      `json:"close,omitempty"`
+	// Unk > 0: the id message carries an unknown field with this value (see sess.Step.Unk)
+	Unk int `json:"unk,omitempty"`
 }
 
 // Case is a sequence of election announcements by up to four sessions.
@@ -47,7 +49,7 @@ func toScript(c Case) sess.Script {
 			continue
 		}
 		id := a.ID
-		sc.Steps = append(sc.Steps, sess.Step{S: a.S, K: "elec", ID: &id})
+		sc.Steps = append(sc.Steps, sess.Step{S: a.S, K: "elec", ID: &id, Unk: a.Unk})
 	}
 	return sc
 }
@@ -165,6 +167,9 @@ func TestCampaign(t *testing.T) {
 				}
 				if !a.Close {
 					prev = append(prev, a.ID)
+					if rapid.IntRange(0, 5).Draw(rt, "unknown-field?") == 0 {
+						a.Unk = rapid.IntRange(1, 2).Draw(rt, "unk")
+					}
 				}
 				c.Seq = append(c.Seq, a)
 			}
